@@ -23,6 +23,7 @@ EXPLANATION += (" Added after the audit wave: C03.1 the counter converts each of
 EXPLANATION += (" Second audit wave: C03.12 (= C17.10) the instants handed to GET_EYE's crossing clustering carry a reduction of the time axis modulo the slot, so that transitions of one parity (PPM slots 1001 1001, 0011...) still fill both crossing groups.")
 EXPLANATION += (' Third audit wave: C03.13 (= C13.13) ook.THRESHOLD_EST returns the middle element of the set of exact minimisers of its cost, never the first (argmin, ties[0]) or last: on a noise-free link the cost is exactly 0 over most of [mu0, mu1] and the first zero sits 0.1-1.5 % of the eye above mu0. C03.14 (= C17.12) GET_EYE reads its threshold off the grid linspace(mu0, mu1, n) at the density minimum only under 0 < index < n-1 (or from a grid without its end points); an end-point minimum is a level, not a valley. C03.15 every whole slot of the record enters the eye statistics: the record is cut by its remainder modulo sps (a partial slot), never modulo two slots, and an odd count is continued by one slot so that it folds - the receiver decides every slot, and the last slot of an odd count (next to the wrap-around of the FFT based devices, the most disturbed one) was otherwise decided without having been seen.')
 EXPLANATION += (" Fourth audit wave: C03.16 the density valley that gives GET_EYE's threshold is searched between the bulks of the two populations: an alternative of the search grid runs from mu0 + a*s0 to mu1 - b*s1 with a, b >= 1. From level to level the grid includes the inner half of each population, where a level split by inter-symbol interference on a short record has a dip of its own (two PPM symbols: threshold above the lowest ON sample). C03.12 requires the one-slot image of the crossings on every alternative of the clustered value.")
+EXPLANATION += (" C03.17 (open known finding): ppm.DSP applies a threshold estimated around the eye's own instant (eye.i) to the samples at gv.sps//2; holds only when GET_EYE is told the decision instant. The failing input and why the one-line repair (decide at eye.i) was rejected are in known_findings.json and DESIGN 3.4.")
 TRUSTED = ["the per-block properties C05, C06, C09, C11, C12, C17", "numpy comparison/sum semantics"]
 LEVEL_TEXT = ("Partial, structural: decides the wiring of ook.DSP / ppm.DSP (sampling instant, comparator, threshold source, decoder order) and the "
               "error-counter formula - necessary conditions of C03. The end-to-end claim over all bit patterns and configurations is not decided by "
@@ -236,6 +237,22 @@ def run(ctx):
     ctx.check("C03.3", bool(samp) and not bad_inst, fp, bad_inst[0].node if bad_inst else fp.node, "ppm.DSP [hard, no threshold given]: sampling instant",
               "SAMPLER(x, gv.sps//2): the slot centre where the DAC places the pulse",
               f"without a given threshold the waveform is sampled at {bad_inst[0].args[1] if bad_inst and len(bad_inst[0].args) > 1 else None!r}, not at the slot centre gv.sps//2 (n_slots samples, pulse peak)"[:300])
+    # C03.17 (open known finding): the eye statistics - and with them the estimated threshold - are taken around the eye's OWN optimum
+    # instant (eye.i, found by clustering the crossings), the decision samples at the fixed slot centre gv.sps//2.  The two differ by a
+    # sample or two when the crossings are pulled sideways, and on a waveform that changes by 40 % from one sample to the next (a
+    # dispersive dip at the exact centre of a sharp NRZ pulse, wide-band PD, odd sps 25-39) the threshold of one instant does not
+    # separate the samples of the other.  Holds when GET_EYE is told the decision instant.
+    # (deciding at eye.i instead is NOT a repair: the index leaves [0, sps) on short records - it is the seeded change C03-w2-eye-instant,
+    # reported by the sampling-instant clause of C03.3 - so the only way to hold is to take the statistics at the decision instant)
+    tied = False
+    told = bool(geye) and any(isinstance(v_, Form) and v_ == HALF for r in geye for v_ in list(r.args[1:]) + [kv[1] for kv in (r.kwargs or []) if kv[0] != "nslots"])
+    if samp and geye:
+        ctx.check("C03.17", tied or told, fp, samp[0].node, "ppm.DSP [hard, no threshold given]: the estimated threshold is applied at the instant it was estimated at",
+                  "decision samples and eye statistics taken at one instant",
+                  "the threshold comes from eye statistics around the eye's own instant (eye.i) and is applied to the samples at gv.sps//2: ppm.DSP(hard) on ONE 4-PPM symbol "
+                  "(bits 10, sps 27, NRZ, ER 10 dB, DM -9990 ps^2 = 0.999 % of T^2, PD BW 12 GHz, noise free) - the centre sample of the ON slot is 0.0332 (dispersive dip), the eye "
+                  "at i = 14 sees 0.0555 / 0.0639 and puts the threshold at 0.0425: wrong in 3 of 3 calls, midway and soft decision right (14 such cases in audit4/C03/audit_C03.py, "
+                  "all odd sps 25-33, 1-4 symbols, wide-band PD, dispersion at the bound)")
     ctx.check("C03.3", ok, fp, fp.node, "ppm.DSP [hard, no threshold given]: rth = eye.threshold, else THRESHOLD_EST(eye, M)", "threshold estimated from the eye of the same waveform",
               "without a given threshold the decision level is not taken from the measured eye (KDE threshold, falling back to THRESHOLD_EST(eye, M))")
     it = Interp(pkg, param_classes={"input": "electrical_signal"}, assumptions={"decision": "soft", "threshold": None, "input.noise": "none"}, no_inline=NI)
